@@ -733,6 +733,8 @@ func checkInheritance(c *Ctx, r *Report) {
 		nil, true,
 		"every @Security annotation (with or without scopes) becomes one alternative; the only other exit is an error")
 	// what decides which checks a route gets: the security resolution consults what it was reviewed to consult
+	// ... and where a controller's / receiver's annotations are read from
+	ruleDecisionInputsOf(c, r, "C03.d", "gast.GetCommentsFromTypeSpec", "gast.GetCommentsFromNode", "gast.MapDocListToCommentBlock", "(*core/visitors.ControllerVisitor).createControllerMetadata", "(*core/visitors.RouteVisitor).getExecutionContext")
 	ruleDecisionInputsOf(c, r, "C03.d", "core/metadata.GetDefaultSecurity", "core/metadata.GetSecurityFromContext", "core/metadata.GetRouteSecurityWithInheritance", "(core/metadata.ControllerMeta).Reduce", "(core/metadata.ReceiverMeta).Reduce")
 	// GetDefaultSecurity yields the configured component
 	if fi := need(c, r, "C03.d", "core/metadata.GetDefaultSecurity"); fi != nil {
